@@ -79,6 +79,12 @@ class ConstrainedProblem(Problem):
 
         num_slacks = len(self.slack_positions)
 
+        if self.cons_offsets is None and num_slacks == 0:
+            return orig_cons
+
+        # the array belongs to the caller (it may be cached): modify a copy
+        orig_cons = np.copy(orig_cons)
+
         if self.cons_offsets is not None:
             orig_cons += self.cons_offsets
 
